@@ -67,7 +67,8 @@ def main(tier, seed):
     c01.load_keywords(R)
     R.assumptions += ['strings = token layouts of the value shapes of checks/shapes.py plus the four derived copulas, with no spaces and with one space at every boundary; names 1 symbolic well-formed char',
                       'numbers concrete (shapes.py)']
-    shapes = [(nm, ('Term', t)) for nm, t in depth1_terms()] + derived_shapes() + [(nm, ('Term', t)) for nm, t in nested_terms()]
+    import c10
+    shapes = [(nm, ('Term', t)) for nm, t in depth1_terms()] + derived_shapes() + [(nm, ('Term', t)) for nm, t in nested_terms()] + c10.image_shapes()[:4]
     st = ('Inheritance', A(0), A(1))
     ss = sentences(st); ts = tasks(st)
     shapes += (ss[::6] + ts[::4]) if quick else (ss + ts)
